@@ -1562,12 +1562,14 @@ def _finalize_insert_update_commands(base_mapper, uowtransaction, states):
                 toload_now.extend([mapper._version_id_prop.key])
 
         if toload_now:
-            state.key = base_mapper._identity_key_from_state(state)
+            identity_key = base_mapper._identity_key_from_state(state)
+            if state.key is None:
+                state.key = identity_key
             stmt = sql.select(mapper)
             loading._load_on_ident(
                 uowtransaction.session,
                 stmt,
-                state.key,
+                identity_key,
                 refresh_state=state,
                 only_load_props=toload_now,
             )
